@@ -117,12 +117,11 @@ fn c11_page_heap_keeps_limit_best() {
 }
 
 //@ like: c11_page_heap_keeps_limit_best
-//@ tier: thorough
-//@ symbolic: as c11_page_heap_keeps_limit_best with limit = 2 (and the degenerate limit 0)
-//@ bounds: 3 candidates, limits 0 and 2
+//@ symbolic: as c11_page_heap_keeps_limit_best with limit = 0 (nothing may be kept)
+//@ bounds: 3 candidates, limit 0
 #[kani::proof]
 #[kani::unwind(6)]
-fn c11_page_heap_keeps_limit_best_2() {
+fn c11_page_heap_limit_zero() {
   page_case(0);
-  page_case(2);
 }
+
